@@ -1,6 +1,7 @@
 package mon
 
 import (
+	"encoding/base64"
 	"context"
 	"crypto/tls"
 	"bytes"
@@ -255,6 +256,38 @@ func c12ReadFraming(w *core.W, j int) {
 		}
 		w.Count("following_messages_read", 1)
 		w.NontrivialStr("read", fmt.Sprint(size), fmt.Sprint(planHead(plan)))
+	}
+	// a frame too short to be a message (0..11 octets behind the length prefix) is an error for the read
+	// that meets it - and only for that one: the stream stays delimited, the message behind it is read whole
+	if j%3 == 0 {
+		for _, rl := range []int{0, 1, 2, 3, 11, j % 12} {
+			cl, sv := netsim.StreamPair()
+			runt := bytes.Repeat([]byte{0xEE}, rl)
+			if rl >= 2 {
+				binary.BigEndian.PutUint16(runt, uint16(len(want))) // what a desynchronised reader would take for a length
+			}
+			sv.Write(append(frame(runt), fr...))
+			co := &dns.Conn{Conn: cl}
+			var e1, e2 error
+			var g2 *dns.Msg
+			w.Eval(1)
+			w.Count("runt_frames", 1)
+			if !within(c12Watch, func() { _, e1 = co.ReadMsg(); g2, e2 = co.ReadMsg() }) {
+				w.Violation("C12/read-hang/after-runt-frame", fmt.Sprintf("a %d-octet frame followed by a %d-octet message: the two reads do not return", rl, len(want)), map[string]any{"size": size})
+				fails++
+				break
+			}
+			if e1 == nil {
+				w.Violation("C12/runt-frame-accepted", fmt.Sprintf("a frame of %d octets was returned as a message", rl), map[string]any{"size": size})
+			}
+			var back2 []byte
+			if g2 != nil {
+				back2, _ = g2.Pack()
+			}
+			if e2 != nil || !bytes.Equal(back2, want) {
+				w.Violation("C12/following-message-mangled/after-runt-frame", fmt.Sprintf("after a frame of %d octets the next message (%d octets) on the stream reads as err=%v, %d octets", rl, len(want), e2, len(back2)), map[string]any{"size": size, "runt": rl})
+			}
+		}
 	}
 	// Conn.Read (the call zone transfers read envelopes with): a caller buffer of exactly the message's
 	// size, one more and 65535 must receive the whole message; one octet less must be refused
@@ -740,6 +773,57 @@ func c12IDs(w *core.W, j int) {
 			}
 		} else {
 			w.Violation("C12/datagram-exchange-hang", "two exchanges on one scripted datagram Conn did not return", nil)
+		}
+	}
+	// a signed exchange over datagrams: a signed datagram with another ID (a late answer to an earlier
+	// query) arrives first and is skipped; the answer that follows is judged against the request's MAC -
+	// the genuine one (its MAC covers the request MAC) is accepted, a reply signed with the right key but
+	// not over this request's MAC is not
+	if j%5 == 4 {
+		secret := []byte("c12-datagram-tsig-secret-0123456789")
+		secretB64 := base64.StdEncoding.EncodeToString(secret)
+		keyName := model.Name{[]byte("dgram-key"), []byte("example")}
+		now := time.Now().Unix()
+		for _, genuine := range []bool{true, false} {
+			sq := q.Copy()
+			sq.SetTsig(keyName.Pres(), dns.HmacSHA256, 300, now)
+			_, reqMACHex, gerr := dns.TsigGenerate(sq.Copy(), secretB64, "", false)
+			if gerr != nil {
+				break
+			}
+			reqMAC, _ := hex.DecodeString(reqMACHex)
+			signReply := func(id uint16, tag string, over []byte) []byte {
+				t := &model.TSIG{KeyName: keyName, Algorithm: mustName(dns.HmacSHA256), TimeSigned: uint64(now), Fudge: 300}
+				out, _, err := t.Sign(mk(id, tag), secret, over, false)
+				if err != nil {
+					return nil
+				}
+				return out
+			}
+			over := reqMAC
+			if !genuine {
+				over = []byte("some other request's MAC 0123456")
+			}
+			script := [][]byte{signReply(q.Id+9, "late-signed-answer-to-another-query", []byte("the MAC of that other query 0123")), signReply(q.Id, "answer", over)}
+			if script[0] == nil || script[1] == nil {
+				break
+			}
+			sc := netsim.NewScripted(script)
+			cc := &dns.Client{Timeout: 300 * time.Millisecond, TsigSecret: map[string]string{keyName.Pres(): secretB64}}
+			var rep *dns.Msg
+			var err error
+			w.Eval(1)
+			w.Count("signed_datagram_exchanges", 1)
+			if !within(c12Watch, func() { rep, _, err = cc.ExchangeWithConn(sq, &dns.Conn{Conn: sc}) }) {
+				w.Violation("C12/datagram-exchange-hang", "a signed exchange over a scripted datagram connection did not return", nil)
+				break
+			}
+			if genuine && (err != nil || rep == nil || rep.Id != q.Id) {
+				w.Violation("C12/datagram-signed-reply-rejected-after-skipped-signed-datagram", fmt.Sprintf("a signed datagram with another ID preceded the genuine signed answer; the exchange ended with %v", err), nil)
+			}
+			if !genuine && err == nil {
+				w.Violation("C12/datagram-reply-for-another-request-accepted", "a signed datagram with another ID preceded an answer whose MAC does not cover this request's MAC; the exchange reported success", nil)
+			}
 		}
 	}
 	// the deadline may come from the caller's context instead of the client's timeouts: with only
